@@ -202,4 +202,17 @@ CLAIMS['C15'] = {
     'note': _NOTE,
 }
 
+CLAIMS['C02'] = {
+    'text': 'Determinism: import and environment audit (no random/time/uuid..., threading '
+            'only in the state handler, one environment selector), every iteration site of '
+            'the package typed and none iterating a set/frozenset/WeakSet order-sensitively '
+            '(one named, justified exception), id()/hash() only in repr; FIFO discipline of '
+            'the loop deques and waiter lists; observational equality of the two wait-queue '
+            'classes and a strict selector; all 39 asserts effect free (purity summaries), '
+            'the 5 `if __debug__:` blocks only define raising stubs, __debug__ read nowhere '
+            'else. Hash-seed dependence inside user payloads or third-party libraries is not '
+            'decided.',
+    'note': _NOTE,
+}
+
 NOT_APPLICABLE = {}
